@@ -415,4 +415,79 @@ theorem complete_shape {c : Seq} {rs : List Rec} {id d sq : Seq} (h : FaComplete
     | nil => simp [faRun, faStep] at hrun
     | cons b t' => exact ⟨b, t', rfl⟩
 
+theorem complete_not_allEol {t : Seq} {rs : List Rec} {id d sq : Seq} (h : FaComplete t rs id d sq)
+    (ha : AllEol t) : False := by
+  obtain ⟨pe, hrun⟩ := h
+  cases t with
+  | nil => simp [faRun] at hrun
+  | cons c t' =>
+    have hc : isEol c = true := ha c (by simp)
+    rcases eol_cases hc with rfl | rfl <;> simp [faRun, faStep] at hrun
+
+theorem complete_strip {t : Seq} {rs : List Rec} {id d sq : Seq} (h : FaComplete t rs id d sq) :
+    FaComplete (stripEol t) rs id d sq := by
+  obtain ⟨pe, hrun⟩ := h
+  obtain ⟨e, he, hall⟩ := stripEol_decomp t
+  rw [he, faRun_append] at hrun
+  cases h1 : faRun .s0 (stripEol t) with
+  | error x => rw [h1] at hrun; cases hrun
+  | ok p =>
+    obtain ⟨s', r1⟩ := p
+    rw [h1] at hrun
+    simp only at hrun
+    cases h2 : faRun s' e with
+    | error x => rw [h2] at hrun; cases hrun
+    | ok p2 =>
+      obtain ⟨s'', r2⟩ := p2
+      rw [h2] at hrun
+      simp only [Except.ok.injEq, Prod.mk.injEq] at hrun
+      obtain ⟨rfl, rfl⟩ := hrun
+      obtain ⟨pe', hs, hr⟩ := faRun_eols_s6 e s' id d sq pe r2 hall h2
+      subst hs; subst hr
+      exact ⟨pe', by simpa using h1⟩
+
+/-- what the workers produce from the chunks of a whole-records text, taken in chunk order -/
+theorem pieces_parse {cs : List Seq} {t : Seq} (hp : Pieces FastaCut cs t) :
+    ∀ (rs : List Rec) (id d sq : Seq), FaComplete t rs id d sq →
+      (∃ rss : List (List Rec), cs.map parseFasta = rss.map Except.ok ∧ rss.flatten = rs ++ [mkRec id d sq]) ∧
+      ∀ c ∈ cs, ∃ rs' id' d' sq', FaComplete c rs' id' d' sq' := by
+  induction hp with
+  | nil h0 => intro rs id d sq hc; exact absurd h0 (fun h => complete_not_allEol hc h)
+  | @lastStripped t _ =>
+    intro rs id d sq hc
+    have hs := complete_strip hc
+    refine ⟨⟨[rs ++ [mkRec id d sq]], ?_, by simp⟩, ?_⟩
+    · simp [parseFasta_complete hs]
+    · intro c hcm; simp at hcm; subst hcm; exact ⟨rs, id, d, sq, hs⟩
+  | @lastRaw t _ =>
+    intro rs id d sq hc
+    refine ⟨⟨[rs ++ [mkRec id d sq]], ?_, by simp⟩, ?_⟩
+    · simp [parseFasta_complete hc]
+    · intro c hcm; simp at hcm; subst hcm; exact ⟨rs, id, d, sq, hc⟩
+  | @cut a b cs hcut _ _ ih =>
+    intro rs id d sq hc
+    obtain ⟨⟨a', e, ha, he⟩, t', hb⟩ := hcut
+    obtain ⟨pe, hrun⟩ := hc
+    subst ha; subst hb
+    obtain ⟨id1, d1, sq1, rs1, rs2, hA, hB, _, hrs⟩ := faRun_cut he hrun
+    have hca : FaComplete (a' ++ [e]) rs1 id1 d1 sq1 := ⟨true, hA⟩
+    have hcb : FaComplete (62 :: t') rs2 id d sq := ⟨pe, hB⟩
+    obtain ⟨⟨rss, hmap, hflat⟩, hall⟩ := ih rs2 id d sq hcb
+    have hsa := complete_strip hca
+    refine ⟨⟨(rs1 ++ [mkRec id1 d1 sq1]) :: rss, ?_, ?_⟩, ?_⟩
+    · simp [parseFasta_complete hsa, hmap]
+    · simp [hflat, hrs]
+    · intro c hcm
+      simp only [List.mem_cons] at hcm
+      rcases hcm with rfl | hcm
+      · exact ⟨rs1, id1, d1, sq1, hsa⟩
+      · exact hall c hcm
+  | @skip a b cs hcut hnil _ _ =>
+    intro rs id d sq hc
+    obtain ⟨⟨a', e, ha, he⟩, t', hb⟩ := hcut
+    obtain ⟨pe, hrun⟩ := hc
+    subst ha; subst hb
+    obtain ⟨id1, d1, sq1, rs1, rs2, hA, _, _, _⟩ := faRun_cut he hrun
+    exact absurd (allEol_of_strip_nil hnil) (fun h => complete_not_allEol ⟨true, hA⟩ h)
+
 end ObiVerif.Parse
